@@ -1,13 +1,20 @@
 #!/bin/sh
-# usage: tools/sweep.sh <tier> <seed-from> <seed-to> [ids...] ; runs the registered checks for several seeds on the current tree
-cd "$(dirname "$0")/.." || exit 2
+# usage: tools/sweep.sh <tier> <seed-from> <seed-to> [ids...]
+# Runs the registered checks for several seeds on SNAPSHOTS of /verif and of the repository (so that work can go on
+# in both while the sweep runs); prints ALARM lines, exit 1 if any check did not exit 0.  Development aid only.
+here=$(cd "$(dirname "$0")/.." && pwd)
 tier=$1; a=$2; b=$3; shift 3
-ids=${*:-$(python3 -c "import json;print(' '.join(c['property_id'] if 'property_id' in c else c['id'] for c in json.load(open('MANIFEST.json'))['checks']))")}
+work=$(mktemp -d /tmp/bec2sweep.XXXXXX)
+trap 'rm -rf "$work"' EXIT
+rsync -a --exclude replays "$here/" "$work/verif/"
+rsync -a --exclude t "${VERIF_REPO:-/repo}/" "$work/repo/"
+cd "$work/verif" || exit 2
+ids=${*:-$(python3 -c "import json;print(' '.join(c['property_id'] for c in json.load(open('MANIFEST.json'))['checks']))")}
 bad=0
 for s in $(seq "$a" "$b"); do
   for id in $ids; do
-    out=$(VERIF_SEED=$s ./check "$id" "$tier" 2>&1); rc=$?
-    if [ $rc -ne 0 ]; then bad=1; echo "ALARM $id seed=$s rc=$rc"; echo "$out" | tail -4; mkdir -p /tmp/sweep; cp replays/$id-$tier-$s-*.json /tmp/sweep/ 2>/dev/null; fi
+    out=$(VERIF_REPO="$work/repo" VERIF_SEED=$s ./check "$id" "$tier" 2>&1); rc=$?
+    if [ $rc -ne 0 ]; then bad=1; echo "ALARM $id seed=$s rc=$rc"; echo "$out" | tail -4; mkdir -p /tmp/sweep_replays; cp replays/$id-$tier-$s-*.json /tmp/sweep_replays/ 2>/dev/null; fi
   done
 done
 [ $bad = 0 ] && echo "sweep clean: $tier seeds $a..$b ($ids)"
